@@ -206,13 +206,17 @@ def check_forwarding(c, repo):
     c.check(len(a0) == 1 and norm(a0[0].ast.value) == 'self.command', sp, a0[0].ast if a0 else None, 'argv[0] is the resolved executable', kind='ast', tag='argv0')
     # PopenSpawn
     pi = repo.func('popen_spawn:PopenSpawn.__init__')
-    dk = [n for n in iter_nodes(pi.node) if isinstance(n, ast.Assign) and 'kwargs' in assigned_names(n) and isinstance(n.value, ast.Call) and dotted(n.value.func) == 'dict']
+    pk = [kk for kk in calls_in(pi.node) if dotted(kk.func) == 'subprocess.Popen']
+    c.need(len(pk) == 1, 'PopenSpawn: subprocess.Popen call not found')
+    star2 = [kw.value.id for kw in pk[0].keywords if kw.arg is None and isinstance(kw.value, ast.Name)]
+    c.need(len(star2) == 1, 'PopenSpawn: **kwargs not found')
+    kwn = star2[0]
+    dk = [n for n in iter_nodes(pi.node) if isinstance(n, ast.Assign) and kwn in assigned_names(n) and isinstance(n.value, ast.Call) and dotted(n.value.func) == 'dict']
     c.need(len(dk) == 1, 'PopenSpawn: kwargs dict not found')
     kw2 = dict((kw.arg, norm(kw.value)) for kw in dk[0].value.keywords)
     for a in ('cwd', 'env', 'preexec_fn'):
         c.check(kw2.get(a) == a, pi, dk[0], 'PopenSpawn forwards %s to subprocess.Popen' % a, witness=str(kw2), kind='ast', tag='popen-' + a)
-    pk = [kk for kk in calls_in(pi.node) if dotted(kk.func) == 'subprocess.Popen']
-    ok = len(pk) == 1 and pk[0].args and is_name(pk[0].args[0], 'cmd') and any(kw.arg is None and is_name(kw.value, 'kwargs') for kw in pk[0].keywords)
+    ok = len(pk) == 1 and pk[0].args and is_name(pk[0].args[0], 'cmd')
     c.check(ok, pi, pk[0] if pk else None, 'subprocess.Popen(cmd, **kwargs)', kind='ast', tag='popen-call')
 
 
